@@ -215,6 +215,15 @@ def duplicateSheet (fixed : Bool) (F : Fold) (b : Book) (i : Nat) : Except OpErr
 /-- sheet id at a position of the vector -/
 def idAt (sheets : List Sheet) (i : Nat) : Option Nat := (sheets[i]?).map (·.id)
 
+/-- the sheet (id) a stored sheet prefix denotes in a worksheet vector: the parser's lookup by name,
+    then the id of the sheet at the index found; `none` = `#REF!` -/
+def refId (sheets : List Sheet) (ctx : String) (sn : Option String) : Option Nat :=
+  (resolveRef (sheets.map (·.name)) ctx sn).idx.bind (idAt sheets)
+
+/-- lookup by name directly (specification of `refId`) -/
+def idByName (sheets : List Sheet) (n : String) : Option Nat :=
+  (sheets.find? (fun s => s.name == n)).map (·.id)
+
 /-- a parsed tree with the sheet *names* forgotten and indices replaced by sheet ids:
     a reference is the id of the sheet it reads (or `none` = `#REF!`); a defined name is its
     spelling with the id of the sheet it is local to -/
@@ -237,6 +246,10 @@ def substId (a a' : Nat) : ENode → ENode :=
     and `duplicate_sheet` all check it) -/
 def Book.UniqueNames (F : Fold) (b : Book) : Prop := (b.sheetNames.map F.up).Nodup
 
+instance (F : Fold) (b : Book) : Decidable (b.UniqueNames F) := by unfold Book.UniqueNames; infer_instance
+
 def Book.UniqueIds (b : Book) : Prop := (b.sheets.map (·.id)).Nodup
+
+instance (b : Book) : Decidable b.UniqueIds := by unfold Book.UniqueIds; infer_instance
 
 end IronCalc.Book
